@@ -10,13 +10,30 @@ NOTE = ""
 ASSUMPTIONS = []
 DESIGN_REF = "DESIGN.md §5 C35"
 
+import os, re
+_VERIF = os.path.dirname(os.path.dirname(os.path.abspath(__file__)))
+
+def gen_scaled_source():
+    """copy of $VERIF_REPO/evdns.c with the formatter's 64 KiB stack buffer made a macro (exactly one replacement)"""
+    repo = os.environ.get("VERIF_REPO", "/repo")
+    src = open(os.path.join(repo, "evdns.c")).read()
+    pat = "unsigned char buf[1024 * 64];"
+    assert src.count(pat) == 1, "evdns.c: formatter buffer declaration not found exactly once"
+    out = src.replace(pat, "unsigned char buf[C35_FMTBUF]; /* verif: scaled, was 1024 * 64 */")
+    d = os.path.join(_VERIF, ".work", "C35gen"); os.makedirs(d, exist_ok=True)
+    p = os.path.join(d, "evdns_fmtbuf_%s.c" % re.sub(r"[^A-Za-z0-9]", "_", repo))
+    if not os.path.exists(p) or open(p).read() != out:
+        open(p, "w").write(out)
+    return p
+
 def fmt(name, N, R, Q=1, D=4, sec=1, extra=(), **kw):
     nn = Q + 2 * R
     d = dict(name=name, harness="C35_response.c", entry="harness_format",
-             defines=["C35_N=%d" % N, "C35_R=%d" % R, "C35_Q=%d" % Q, "C35_D=%d" % D, "C35_FIXLEN", "C35_SECMODE=%d" % sec, "VP_MEMCPY_SMALL=%d" % max(N, D, 4)] + list(extra),
+             defines=["C35_N=%d" % N, "C35_R=%d" % R, "C35_Q=%d" % Q, "C35_D=%d" % D, "C35_FIXLEN", "C35_SECMODE=%d" % sec,
+                      "C35_EVDNS_SRC=\"%s\"" % gen_scaled_source(), "C35_FMTBUF=%d" % kw.pop("fmtbuf", 64)] + list(extra),
              unwind=max(4, R + 1),
              unwindset=["strcmp.0:%d" % (N + 2), "strlen.0:%d" % (N + 2), "strchr.0:%d" % (N + 2), "dnslabel_table_get_pos.0:%d" % (nn + 1), "dnslabel_clear.0:%d" % (nn + 1),
-                        "dnsname_to_labels.1:3", "vp_memcpy.0:%d" % (max(N, D, 4) + 2), "dnsref_name.0:%d" % (N + 1), "dnsref_name.1:%d" % (N + 6), "vp_bytes.0:%d" % (max(N, D) + 1),
+                        "dnsname_to_labels.1:3", "vp_memcpy.0:%d" % 66, "dnsref_name.0:%d" % (N + 1), "dnsref_name.1:%d" % (N + 6), "vp_bytes.0:%d" % (max(N, D) + 1),
                         "harness_format.0:%d" % (R + 1), "harness_format.1:%d" % (D + 1), "harness_format.2:%d" % (R + 1), "c35_same_name.0:%d" % (N + 1), "c35_name.0:%d" % (N + 1),
                         "server_request_free_answers.0:4", "server_request_free_answers.1:%d" % (R + 1), "evdns_server_request_add_reply.0:%d" % (R + 1),
                         "evdns_server_request_format_response.6:%d" % (Q + 1), "evdns_server_request_format_response.20:4", "evdns_server_request_format_response.19:%d" % (R + 1)],
